@@ -1084,12 +1084,12 @@ func enumB(seed int64, counts []int, thorough bool, f func(CaseB)) {
 var columnCounts = []int{1, 2, 3, 4, 7, 8, 9, 16, 17, 64, 250, 251, 300}
 
 func run(r *chk.Run) {
+	e2.RunTwoStreamsFirst(r)
 	// end-to-end half first (engine E2): the streamer's own walk over the images
 	e2.RunImageWalk(r)
 	// rows of tables whose id lies at the edges of the 4- / 6-byte id field
 	e2.RunTableIDs(r)
 	e2.RunScale(r, "big-events", "kept-cells")
-	e2.RunNested(r)
 	if r.Violated() {
 		r.SetExhaustive(false)
 		return
